@@ -494,3 +494,75 @@ Theorem C11_stat_cached_loader_refuted :
       = seen_on set n s.
 Proof. exact stat_cache_refuted. Qed.
 Print Assumptions C11_stat_cached_loader_refuted.
+
+(* ===== a certificate file that is there with nothing in it ===== *)
+
+(* A wanted entry of the certificate directory (not a directory, *.pem, not hidden, at most
+   MaxSize) that reads as a file in which tls.X509KeyPair finds neither a certificate nor a key
+   - zero length after an interrupted rewrite or on a full disk, an O_TRUNC rewrite observed
+   half-way, blanks, a placeholder -, whatever size Lstat reports for it, 0 included, and
+   whatever else the directory holds: the directory does not read as a usable set.  The file is
+   unusable material; it is never passed over so that the remaining files make a smaller set. *)
+Theorem C11_empty_file_makes_directory_unusable : forall d p e f,
+  NoDup (map fst d) -> In (p, e) d -> wanted (p, e) = true -> d_read e = Some f ->
+  f_cert f = None -> f_key f = None ->
+  usable (dir_view d) = None.
+Proof. exact nothing_in_file_unusable. Qed.
+Print Assumptions C11_empty_file_makes_directory_unusable.
+(* ... so after every history of directory states the handshake after such a state is
+   presented what the handshake before it was: the working set stays, the certificate that the
+   emptied file used to hold included (loadPath -> watch -> store composed) *)
+Theorem C11_empty_file_keeps_working_set : forall dirs d p e f n s,
+  NoDup (map fst d) -> In (p, e) d -> wanted (p, e) = true -> d_read e = Some f ->
+  f_cert f = None -> f_key f = None ->
+  nth (length dirs) (run_store_seen [] (e2e_actions watch_step false None (map dir_load (dirs ++ [d])) n s)) SNone
+  = seen_on (last_good [] (map dir_view dirs)) n s.
+Proof. exact nothing_in_file_keeps_set. Qed.
+Print Assumptions C11_empty_file_keeps_working_set.
+(* the file itself is one half (or both halves) of a pair that cannot be made *)
+Theorem C11_empty_file_has_no_pair : forall m p f,
+  pem_name p = true -> blocks_find m p = Some f -> f_cert f = None -> f_key f = None ->
+  exists cf kf, classify p = Some (cf, kf) /\ key_pair m cf kf = None.
+Proof. exact nothing_in_file_no_pair. Qed.
+Print Assumptions C11_empty_file_has_no_pair.
+(* non-vacuity and the whole course: two sites in combined files; shop.pem truncated to zero
+   bytes; shop as a pair; both files of the pair empty at once (twice); the renewal *)
+Theorem C11_zero_length_example :
+  NoDup (map fst shop_truncated) /\
+  In (bs "shop.pem", reg 0 2 nothing) shop_truncated /\
+  wanted (bs "shop.pem", reg 0 2 nothing) = true /\
+  d_size (reg 0 2 nothing) = 0 /\ f_cert nothing = None /\ f_key nothing = None /\
+  usable (dir_view shop_truncated) = None /\ usable (dir_view shop_pair_empty) = None /\
+  run_store_seen [] (e2e_actions watch_step false None (map dir_load zero_length_history) (bs "shop.example") true)
+  = [SCert rel_v1_cert; SCert rel_v1_cert; SCert rel_v1_cert; SCert rel_v1_cert; SCert rel_v1_cert; SCert rel_v2_cert] /\
+  run_store_seen [] (e2e_actions watch_step false None (map dir_load zero_length_history) (bs "shop.example") false)
+  = [SCert rel_v1_cert; SCert rel_v1_cert; SCert rel_v1_cert; SCert rel_v1_cert; SCert rel_v1_cert; SCert rel_v2_cert].
+Proof. exact zero_length_example. Qed.
+Print Assumptions C11_zero_length_example.
+(* NOT the code ([walk_skipping_empty]): a loader that leaves out the entries Lstat reports as
+   empty does not have the property - the truncated file vanishes from the material, the
+   remaining files are published as a smaller set, and the name the truncated file served is
+   presented another site's certificate, on a strict listener none *)
+Theorem C11_skip_empty_files_loader_refuted :
+  exists dirs d p e f n,
+    NoDup (map fst d) /\ In (p, e) d /\ wanted (p, e) = true /\ d_read e = Some f /\
+    f_cert f = None /\ f_key f = None /\ d_size e = 0 /\
+    seen_on (last_good [] (map dir_view dirs)) n false = SCert rel_v1_cert /\
+    nth (length dirs) (run_store_seen [] (e2e_actions watch_step false None (map dir_load_skipping_empty (dirs ++ [d])) n false)) SNone
+      = SCert main_cert /\
+    nth (length dirs) (run_store_seen [] (e2e_actions watch_step false None (map dir_load_skipping_empty (dirs ++ [d])) n true)) SErrNoCerts
+      = SNone /\
+    nth (length dirs) (run_store_seen [] (e2e_actions watch_step false None (map dir_load (dirs ++ [d])) n false)) SNone
+      = SCert rel_v1_cert /\
+    nth (length dirs) (run_store_seen [] (e2e_actions watch_step false None (map dir_load (dirs ++ [d])) n true)) SNone
+      = SCert rel_v1_cert.
+Proof. exact skip_empty_files_refuted. Qed.
+Print Assumptions C11_skip_empty_files_loader_refuted.
+Theorem C11_skip_empty_pair_refuted :
+  usable (dir_view shop_pair_empty) = None /\
+  nth 1 (run_store_seen [] (e2e_actions watch_step false None (map dir_load_skipping_empty [shop_pair_v1; shop_pair_empty]) (bs "shop.example") true)) SErrNoCerts
+    = SNone /\
+  nth 1 (run_store_seen [] (e2e_actions watch_step false None (map dir_load [shop_pair_v1; shop_pair_empty]) (bs "shop.example") true)) SNone
+    = SCert rel_v1_cert.
+Proof. exact skip_empty_pair_refuted. Qed.
+Print Assumptions C11_skip_empty_pair_refuted.
